@@ -82,8 +82,15 @@ def main():
         results[k] = res
     for p in pids:   # restore facts / evidence of the real tree
         sh('cd %s/harness && /venv/bin/python check.py %s --quick' % (VERIF, p))
-    meta['checked_by_main_session'] = results
-    json.dump(meta, open(os.path.join(dst, 'meta.json'), 'w'), indent=1)
+    prev = {}
+    try:
+        prev = json.load(open(os.path.join(dst, 'meta.json')))
+    except Exception:
+        pass
+    merged = dict(prev)                       # earlier rounds (other r<k>) keep their description and result
+    merged.update({k: v for k, v in meta.items() if k != 'checked_by_main_session'})
+    merged['checked_by_main_session'] = dict(prev.get('checked_by_main_session', {}), **results)
+    json.dump(merged, open(os.path.join(dst, 'meta.json'), 'w'), indent=1)
     print(json.dumps(results, indent=1)[:4000])
     return 0
 
